@@ -136,7 +136,26 @@ func (in *Interp) formatArgs(caller *frame, va Value) ([]any, bool) {
 	return out, ok
 }
 
-func opaqueStr(hint string) Str { return Str{c: "<opaque:" + hint + ">", opaque: true} }
+func opaqueStr(hint string) Str {
+	return Str{c: "<opaque:" + hint + ">", opaque: true, ne: hint != "?" && formatHasLiteral(hint)}
+}
+
+// formatHasLiteral: the format string has characters outside its verbs, so the result is non-empty
+func formatHasLiteral(f string) bool {
+	for i := 0; i < len(f); i++ {
+		if f[i] != '%' {
+			return true
+		}
+		i++
+		if i < len(f) && f[i] == '%' {
+			return true
+		}
+		for i < len(f) && !(f[i] >= 'a' && f[i] <= 'z' || f[i] >= 'A' && f[i] <= 'Z') {
+			i++
+		}
+	}
+	return false
+}
 
 // wrapVerbArg returns the index of the argument consumed by the first %w verb, or -1.
 func wrapVerbArg(format string) int {
